@@ -306,6 +306,44 @@ pub fn prover_oracle<E: Engine>(ctx: &RunCtx, spec: &TripleSpec, log: &mut CaseL
             }
         },
     }
+    // whatever else the prover can be brought to output must round-trip as well: a witness with one blinding component fewer
+    // than the generators' degree (its shorter openings do reproduce the commitments) is refused today; if a proof comes back,
+    // it is a prover output like any other
+    if t.cfg.ext >= 2 {
+        use tari_bulletproofs_plus::{commitment_opening::CommitmentOpening, range_statement::RangeStatement, range_witness::RangeWitness};
+        let short: Vec<Vec<curve25519_dalek::scalar::Scalar>> = t.blindings.iter().map(|r| r[..r.len() - 1].to_vec()).collect();
+        let cs: Vec<E::P> = t
+            .values
+            .iter()
+            .zip(short.iter())
+            .map(|(v, r)| E::commit(t.params.pc_gens(), &curve25519_dalek::scalar::Scalar::from(*v), r).map_err(|e| format!("commit: {:?}", e)))
+            .collect::<Result<_, _>>()?;
+        let st = RangeStatement::init(t.params.clone(), cs, t.promises.clone(), t.seed).map_err(|e| format!("{:?}", e))?;
+        let w = RangeWitness::init(t.values.iter().zip(short.iter()).map(|(v, r)| CommitmentOpening::new(*v, r.clone())).collect())
+            .map_err(|e| format!("{:?}", e))?;
+        if let Ok(p) = guarded(|| E::prove(&mut t.transcript(), &st, &w, &mut spec.rng.make()))? {
+            let b = p.to_bytes();
+            match guarded(|| RangeProof::<E::P>::from_bytes(&b))? {
+                Ok(q) if q == p && q.to_bytes() == b => {},
+                Ok(_) => return Err("decode(encode(proof)) != proof for the proof the prover returned for a witness of lower degree than the generators".into()),
+                Err(e) if t.cfg.rounds() == 0 && ctx.is_known("roundtrip-zero-rounds").is_some() => {
+                    let _ = e;
+                },
+                Err(e) => {
+                    return Err(format!(
+                        "decoder refuses the proof the prover returned for a witness of degree {} under generators of degree {}: {:?}",
+                        t.cfg.ext - 1,
+                        t.cfg.ext,
+                        e
+                    ))
+                },
+            }
+            log.label("prover-output:short-witness-proved");
+        } else {
+            log.label("prover-output:short-witness-refused");
+        }
+        log.extra_evals += 1;
+    }
     log.label(format!("engine={}", E::NAME));
     log.label("prover-output");
     log.labels(t.classes());
@@ -350,7 +388,7 @@ pub fn def() -> PropertyDef {
                one-byte extension of every accepted string. (ii) prover output in every lattice configuration. Oracle: from_bytes accepts <=> \
                independent predicate (own length arithmetic, own 256-bit comparison with l); accept => re-encoding is byte-identical; bincode \
                deserialize(len || x) accepts <=> from_bytes accepts, equal value; serialize(p) == len || to_bytes(p); degree helper == first-byte \
-               rule; prover output round-trips and has length 1+32(5+d+2 log2(bits m)). Non-trivial = a string within one element of an \
+               rule; prover output round-trips and has length 1+32(5+d+2 log2(bits m)); a witness with one blinding component fewer than the generators' degree is refused today - if the prover returns a proof for it, that output must round-trip too. Non-trivial = a string within one element of an \
                acceptance boundary or with a non-canonical scalar, or a prover output; distinct by (first byte, pairs, offset, trailing class, \
                slot classes) / configuration."
             .into(),
